@@ -114,6 +114,13 @@ Definition to_c_bool (v : Z) : res Z :=
 Definition api_arg (T : ity) (v : Z) : res Z :=
   if ibool T then to_c_bool v else to_c_int T v.
 
+(* API-mode argument given an arbitrary object: both converters start with _my_PyLong_As* *)
+Definition api_arg_obj (T : ity) (o : pyobj) : res Z :=
+  match o with
+  | PInt v | PIntLike v => api_arg T v
+  | PFloat | PNoInt => Err TypeError
+  end.
+
 (* ---- callback result (:6076).  `result` is an ffi_arg-sized (8 byte) buffer. *)
 Definition overwrite (new old : list Z) : list Z := List.app new (skipn (List.length new) old).
 
@@ -189,3 +196,15 @@ Definition callback_obs (size : Z) (sg bl : bool) (v E : Z) : Z * Z :=
   | Err e => (10 + exc_code e, 0)
   | UB => (99, 0)
   end.
+
+(* objects: kind code 0 PInt, 1 PIntLike, 2 PFloat, 3 PNoInt *)
+Definition obj_of (k v : Z) : pyobj :=
+  if k =? 0 then PInt v else if k =? 1 then PIntLike v else if k =? 2 then PFloat else PNoInt.
+Definition store_obj_obs_z (size : Z) (sg bl : bool) (k v old : Z) : Z * Z :=
+  match store_obj (mk_ity (Z.to_nat size) sg bl) (obj_of k v) (encode_le (Z.to_nat size) old) with
+  | (Ok _, bs) => (0, decode_le bs)
+  | (Err e, bs) => (exc_code e, decode_le bs)
+  | (UB, bs) => (99, decode_le bs)
+  end.
+Definition api_obj_obs (size : Z) (sg bl : bool) (k v : Z) : Z * Z :=
+  res_obs (api_arg_obj (mk_ity (Z.to_nat size) sg bl) (obj_of k v)).
